@@ -29,7 +29,11 @@ func mkC01Pair(name string, dim int) c01Pair {
 		p.alg = []Algorithm{AlgorithmES256, AlgorithmES384, AlgorithmES512}[kind]
 		key := vECKeyValid(name+".key", vCurveByIndex(kind))
 		vAssume(vOnCurve(&key.PublicKey))
-		p.signer, err = NewSigner(p.alg, key)
+		if c07Pick(name+".opaque", 2, dim) == 1 { // the key behind a foreign crypto.Signer (HSM / KMS style)
+			p.signer, err = NewSigner(p.alg, &wrappedKey{inner: key})
+		} else {
+			p.signer, err = NewSigner(p.alg, key)
+		}
 		vAssume(err == nil)
 		p.verifier, err = NewVerifier(p.alg, &key.PublicKey)
 		vAssume(err == nil)
@@ -43,7 +47,11 @@ func mkC01Pair(name string, dim int) c01Pair {
 	default:
 		p.alg = []Algorithm{AlgorithmPS256, AlgorithmPS384, AlgorithmPS512}[kind-4]
 		key := vRSAKeyValid(name + ".key")
-		p.signer, err = NewSigner(p.alg, key)
+		if c07Pick(name+".opaque", 2, dim) == 1 {
+			p.signer, err = NewSigner(p.alg, &wrappedKey{inner: key})
+		} else {
+			p.signer, err = NewSigner(p.alg, key)
+		}
 		vAssume(err == nil)
 		p.verifier, err = NewVerifier(p.alg, &key.PublicKey)
 		vAssume(err == nil)
